@@ -542,6 +542,14 @@ fn process_request_obj(request: &Request, dbs: &Arc<Databases>, client: &mut Cli
             request_str,
             opp_id,
         } => {
+            // Every level of wrapping is a nested call of process_request: a line made of a few
+            // thousand `rp <id>` prefixes overflowed the stack of the connection thread, which
+            // aborts the whole process. Nodes never wrap a replicated message twice
+            if request_str.trim_start().starts_with("rp ") {
+                return Response::Error {
+                    msg: String::from("rp can not wrap another rp"),
+                };
+            }
             log::debug!("ack send_message_to_secoundary {} {}", opp_id, request_str);
             client
                 .sender
